@@ -582,33 +582,49 @@ Definition dev_print : M unit :=
 Definition can_hold_single (f : fl) : bool :=
   match to_single f with Some _ => true | None => false end.
 
-(* push_vars: returns false on a rejected line; cells are pushed as it goes *)
-Fixpoint push_fields (l : list (str * Z)) : M bool :=
+(* push_vars (after the fix of D13): every field is converted first; cells are
+   pushed only when the whole line is acceptable *)
+Fixpoint conv_fields (l : list (str * Z)) : M (option (list (Z * pyval))) :=
   match l with
-  | [] => ret true
+  | [] => ret (Some [])
   | (v, ty) :: r =>
+    let continue (c : Z * pyval) :=
+      do o <- conv_fields r; ret (option_map (cons c) o) in
     if ty =? 1 then
       match py_int v with
-      | Some z => if in_int z then (push 1 (PInt z);; push_fields r) else ret false
-      | None => ret false
+      | Some z => if in_int z then continue (1, PInt z) else ret None
+      | None => ret None
       end
     else if ty =? 2 then
       match py_int v with
-      | Some z => if in_long z then (push 2 (PInt z);; push_fields r) else ret false
-      | None => ret false
+      | Some z => if in_long z then continue (2, PInt z) else ret None
+      | None => ret None
       end
     else if ty =? 3 then
       match py_float v with
-      | Some f => if can_hold_single f then (push 3 (PFlt f);; push_fields r) else ret false
-      | None => ret false
+      | Some f => if can_hold_single f then continue (3, PFlt f) else ret None
+      | None => ret None
       end
     else if ty =? 4 then
       match py_float v with
-      | Some f => push 4 (PFlt f);; push_fields r
-      | None => ret false
+      | Some f => continue (4, PFlt f)
+      | None => ret None
       end
-    else if ty =? 5 then push 5 (PStrV v);; push_fields r
+    else if ty =? 5 then continue (5, PStrV v)
     else trap T_DEVICE_ERROR
+  end.
+
+Fixpoint push_all (l : list (Z * pyval)) : M unit :=
+  match l with
+  | [] => ret tt
+  | (ty, v) :: r => push ty v;; push_all r
+  end.
+
+Definition push_fields (l : list (str * Z)) : M bool :=
+  do o <- conv_fields l;
+  match o with
+  | Some cells => push_all cells;; ret true
+  | None => ret false
   end.
 
 Fixpoint zip {A B} (a : list A) (b : list B) : list (A * B) :=
